@@ -33,7 +33,7 @@
 (***************************************************************************)
 EXTENDS RA_SqlSem, RA_Diag, Json
 
-CONSTANTS Contents, Sources, BaseDepth, FinalOps, Emit
+CONSTANTS Contents, Sources, BaseDepth, FinalOps, StartCalcs, Emit
 
 VARIABLES src, l1, hist, rel, ref, prev, final
 vars == <<src, l1, hist, rel, ref, prev, final>>
@@ -64,7 +64,7 @@ AllFinalOps ==
 \* the documented no-op forms, issued with every option combination as well
 NoOpForms(cols) == {Sort(<<>>), Slice(0, -1), Proj(cols), Sel(PLit(TRUE))}
 FinalMenu(cols) == {op \in (IF FinalOps = "all" THEN AllFinalOps
-                            ELSE {Calc("e", Fn("neg", <<A>>)), Proj({"a"}), Sel(Cmp("eq", A, Lit(0))), Dedup,
+                            ELSE {Calc("e", Fn("neg", <<A>>)), Proj({"a"}), Proj({"b"}), Sel(Cmp("eq", A, Lit(0))), Dedup,
                                   Sort(TotalAB), Slice(0, 1)})
                       : BeginErr(op, cols) = "none" /\ ~(op.o = "calc" /\ op.tag \in cols)}
                      \cup NoOpForms(cols)
@@ -97,15 +97,20 @@ FinalCalls(r) ==
               p \in {q \in {PLit(TRUE), Cmp("le", A, CC), Cmp("le", D, CC)} : ReqP(q) \subseteq Cols(r) \cup {"a", "c"}},
               bt \in BOOLEAN, tr \in BOOLEAN}
 
+\* StartCalcs \subseteq BOOLEAN: with TRUE the program starts with a calculated
+\* column d at the source (three columns without spending the depth bound)
+StartCall == [f |-> "un", op |-> Calc("d", Fn("add", <<A, B>>)), opts |-> DefaultOpts]
 Init == /\ src \in Sources
         /\ l1 \in Contents
-        /\ hist = <<>>
-        /\ rel = (IF src = "sql" THEN PlainSel(LeafL(src, l1)) ELSE LeafL(src, l1))
+        /\ \E sc \in StartCalcs :
+             LET leaf == IF src = "sql" THEN PlainSel(LeafL(src, l1)) ELSE LeafL(src, l1) IN
+             /\ hist = (IF sc THEN <<StartCall>> ELSE <<>>)
+             /\ rel = (IF sc THEN CallResult(StartCall, leaf) ELSE leaf)
+             /\ ref = (IF sc THEN CallRows(StartCall, leaf, l1) ELSE l1)
         /\ prev = rel
-        /\ ref = l1
         /\ final = FALSE
 
-Base == /\ ~final /\ Len(hist) < BaseDepth
+Base == /\ ~final /\ Len(hist) < BaseDepth + (IF hist # <<>> /\ hist[1] = StartCall THEN 1 ELSE 0)
         /\ \E c \in BaseCalls(rel, hist) :
               LET r == CallResult(c, rel) IN
               /\ ~IsErr(r)
